@@ -12,6 +12,7 @@ RULE = ("config-exhaustive: EVERY (n_features 1..7 quick / 1..9 thorough, plus w
         "with the bias column) x interaction_only x include_bias x kind in {poly, poly-slow}, on a matrix whose rows are distinct "
         "primes so that, by unique factorisation, the value in an output column identifies its monomial exactly; "
         "real-matrices: Hypothesis-drawn configuration and dyadic real matrix (zeros, negatives, int64/float32/float64), transformed in four memory layouts, twice, and followed by a second batch of the same shape through the same fitted object (right columns; the first result keeps its values). "
+        "tall: 2-4 columns x degree 2-3 on 8739..33333 rows (4097..100003 thorough), sizes at which an implementation may start working block by block. "
         "Oracle: sklearn PolynomialFeatures (same arguments) column by column, and feature names parsed into exponent multisets. "
         "Non-trivial: degree >= 2. Distinct = distinct configuration (exhaustive clause) / distinct case.")
 ASSUMPTIONS = ["PolynomialFeatures of the installed scikit-learn is the reference",
@@ -129,6 +130,29 @@ def _configs(tier):
                         yield dict(n=n, degree=degree, interaction_only=io, include_bias=bias, kind=kind)
 
 
+def check_tall(cfg):
+    """many rows (the output crosses the sizes at which an implementation may start working block by block): every row still right"""
+    rows, n = cfg["rows"], cfg["n"]
+    i = np.arange(rows, dtype=np.float64)[:, None]
+    j = np.arange(n, dtype=np.float64)[None, :]
+    X = ((i * (j + 3) + 5 * j) % 17 - 8) / 4.0          # dyadic: products are exact, equality is exact
+    facts = dict(cfg)
+    _run(cfg, X, facts)
+    return Outcome([cfg["kind"], "rows=%d" % rows, "degree=%d" % cfg["degree"]], True, key=cfg)
+
+
+def _tall_configs(tier):
+    sizes = (8739, 13108, 20000, 33333) if tier == "quick" else (4097, 6554, 8739, 13108, 20000, 21846, 33333, 65537, 100003)
+    for rows in sizes:
+        for n in (2, 3, 4):
+            for degree in (2, 3):
+                for io in (False, True):
+                    for kind in ("poly", "poly-slow"):
+                        if kind == "poly-slow" and rows > 20000:
+                            continue
+                        yield dict(rows=rows, n=n, degree=degree, interaction_only=io, include_bias=not io, kind=kind)
+
+
 def check_real(case):
     cfg = case["cfg"]
     dt = {"float64": np.float64, "float32": np.float32, "int64": np.int64}[case["dtype"]]
@@ -185,6 +209,8 @@ def _real_cases(draw, tier="quick"):
 CLAUSES = [
     Clause("config-exhaustive", check_config, cases=_configs, quick_shards=8, thorough_shards=16, exhaustive=True,
            doc="every configuration in the bounds on a prime matrix: columns, n_output_features_, names"),
+    Clause("tall", check_tall, cases=_tall_configs, quick_shards=8, thorough_shards=16, exhaustive=True,
+           doc="inputs of 4e3..1e5 rows: every row equals PolynomialFeatures'"),
     Clause("real-matrices", check_real, strategy=lambda tier: _real_cases(tier), quick=1500, thorough=30000, quick_shards=8,
            doc="drawn configuration x drawn dyadic matrix; both kinds; input untouched"),
 ]
